@@ -500,10 +500,7 @@ func (st *State) execInstr(in ssa.Instruction) {
 		case *types.Slice:
 			st.boundsCheck(iv.T, xv.Fs[1].T, "slice index")
 			sz := st.g.P.sizeof(u.Elem())
-			a := fmt.Sprintf("(+ %s %s)", xv.Fs[0].T, mulC(iv.T, sz))
-			if c, ok := isConstInt(x.Index); ok {
-				a = addOff(xv.Fs[0].T, c*sz)
-			}
+			a := st.g.elemAddr(xv.Fs[0].T, iv.T, sz)
 			st.fr.regs[x] = st.ptrTo(u.Elem(), a)
 		case *types.Pointer:
 			arr := u.Elem().Underlying().(*types.Array)
@@ -511,10 +508,7 @@ func (st *State) execInstr(in ssa.Instruction) {
 			l := st.asLoc(xv, u.Elem())
 			sz := st.g.P.sizeof(arr.Elem())
 			if l.Heap == "mem.flatarr" {
-				a := fmt.Sprintf("(+ %s %s)", l.Addr, mulC(iv.T, sz))
-				if c, ok := isConstInt(x.Index); ok {
-					a = addOff(l.Addr, c*sz)
-				}
+				a := st.g.elemAddr(l.Addr, iv.T, sz)
 				st.fr.regs[x] = st.ptrTo(arr.Elem(), a)
 				break
 			}
